@@ -1,7 +1,7 @@
 #!/bin/bash
 # usage: tools/par_seeded.sh <slot> <tier> <seeded-or-benign-dir> [ID ...]
 # Like run_seeded.sh, but never touches /repo: slot <slot> owns a scratch copy of /repo
-# (/tmp/ps/<slot>/repo) and of /verif (/tmp/ps/<slot>/verif, with its own build output that is
+# (/tmp/ps/<slot>/repo, HEAD) and of /verif (/tmp/ps/<slot>/verif, with its own build output that is
 # kept between runs of the same slot), applies the patch to the copy and runs the checks there
 # (VERIF_REPO names the copy).  Several slots can run side by side.  Results go to
 # <dir>/result.txt; evidence and replay files of these runs stay in the scratch copy.
@@ -14,8 +14,14 @@ IDS="$*"
 [ -f "$D/also.txt" ] && [ $# -eq 0 ] && IDS="$IDS $(cat "$D/also.txt")"
 S=/tmp/ps/$SLOT
 mkdir -p $S/repo $S/verif
-rsync -a --delete --exclude target --exclude .git /repo/ $S/repo/
-rsync -a --delete --exclude .git --exclude harness/target --exclude fuzz/target --exclude fuzz/work --exclude seeded --exclude benign --exclude 'replays/*-seed*' "$ROOT"/ $S/verif/
+# committed state of both (so that edits in progress do not leak into the runs); files that differ are
+# rewritten with the current time, never with an older one: cargo only rebuilds what is newer than its output
+rm -rf $S/repo.new $S/verif.new; mkdir -p $S/repo.new $S/verif.new
+git -C /repo archive HEAD | tar -x -C $S/repo.new
+git -C "$ROOT" archive HEAD -- . ':!seeded' ':!benign' | tar -x -C $S/verif.new
+rsync -rlpgoD --delete --checksum --exclude target $S/repo.new/ $S/repo/
+rsync -rlpgoD --delete --checksum --exclude harness/target --exclude fuzz/target --exclude 'fuzz/work*' --exclude 'replays/*-seed*' $S/verif.new/ $S/verif/
+rm -rf $S/repo.new $S/verif.new
 if [ ! -d $S/verif/harness/target ]; then cp -r "$ROOT/harness/target" $S/verif/harness/target 2>/dev/null; fi
 sed -i "s#path = \"/repo\"#path = \"$S/repo\"#" $S/verif/harness/Cargo.toml
 ( cd $S/repo && git apply "$D/patch.diff" ) || { echo "patch does not apply" | tee "$D/result.txt"; exit 3; }
@@ -30,3 +36,4 @@ for id in $IDS; do
   last=$(echo "$out" | tail -1)
   echo "$id $TIER exit=$code wall=$((end-start))s | $viol | $sig | $last" | tee -a "$D/result.txt"
 done
+( cd $S/repo && git apply -R "$D/patch.diff" ) || echo "warning: could not revert the patch in $S/repo"
